@@ -1,0 +1,71 @@
+//go:build verif
+
+package bbolt
+
+import (
+	"os"
+
+	"go.etcd.io/bbolt/internal/common"
+	fl "go.etcd.io/bbolt/internal/freelist"
+)
+
+// This file is only compiled with the build tag "verif". It lets an external
+// verification harness observe (and fail) every I/O call issued against the
+// data file, and read a few unexported fields. It changes no behaviour unless
+// VerifIOHook is set.
+
+// verifOp identifies the kind of I/O call passed to VerifIOHook.
+type verifOp int
+
+const (
+	verifWrite     verifOp = iota // db.ops.writeAt(buf, off)
+	verifFdatasync                // fdatasync(db)
+	verifFsync                    // db.file.Sync() in grow
+	verifTruncate                 // db.file.Truncate(off) in grow
+	verifMmap                     // mmap(db, off)
+)
+
+// Exported names of the above for the harness.
+type VerifOp = verifOp
+
+const (
+	VerifWrite     = verifWrite
+	VerifFdatasync = verifFdatasync
+	VerifFsync     = verifFsync
+	VerifTruncate  = verifTruncate
+	VerifMmap      = verifMmap
+)
+
+// VerifIOHook, when non-nil, is called immediately before each I/O call.
+// A non-nil return value makes the call fail with that error instead of
+// being executed.
+var VerifIOHook func(db *DB, op VerifOp, off int64, buf []byte) error
+
+func verifIO(db *DB, op VerifOp, off int64, buf []byte) error {
+	if h := VerifIOHook; h != nil {
+		return h(db, op, off, buf)
+	}
+	return nil
+}
+
+// verifAttach routes db.ops.writeAt through the hook.
+func verifAttach(db *DB) {
+	inner := db.ops.writeAt
+	db.ops.writeAt = func(b []byte, off int64) (int, error) {
+		if err := verifIO(db, verifWrite, off, b); err != nil {
+			return 0, err
+		}
+		return inner(b, off)
+	}
+}
+
+// Read-only accessors for the harness.
+
+func VerifFile(db *DB) *os.File          { return db.file }
+func VerifFreelist(db *DB) fl.Interface  { return db.freelist }
+func VerifDataSize(db *DB) int           { return db.datasz }
+func VerifPageSize(db *DB) int           { return db.pageSize }
+func VerifMapped(db *DB) bool            { return db.data != nil }
+func VerifTxMeta(tx *Tx) common.Meta     { return *tx.meta }
+func VerifTxDirtyPages(tx *Tx) int       { return len(tx.pages) }
+func VerifBucketRootNode(b *Bucket) bool { return b.rootNode != nil }
